@@ -98,6 +98,14 @@ class Defaulted:      # parameters with non-trivial defaults: values that are ==
         return 0
 
 
+@labtech.task
+class Régression_Δ:      # a module-level task type whose class name is a non-ASCII identifier: its key must be accepted like any other
+    x: object = 1
+
+    def run(self):
+        return ('non-ascii', repr(self.x))
+
+
 @labtech.task(cache=None)
 class NoCache:
     v: object = None
@@ -207,6 +215,12 @@ def task_bearing_shapes():
     yield [{'x': L(1), 'y': 1}, {'x': 2, 'y': L(2)}, {'x': L(3), 'y': L(4)}]
     yield ({}, {'z': L(1)}, {}, {'z': L(2)})
     yield [Holder(v=[{'m': L(1)}, {'m': L(2)}]), {'h': Holder(v={'a': {'q': L(3)}, 'b': {'q': L(4)}})}]
+    # tasks AFTER plain values in the same sequence / mapping (labels, seeds, weights first), at several depths
+    yield ('train', L(1))
+    yield [0, L(1), 1, L(2)]
+    yield (1.5, [None, L(2)], True, L(3))
+    yield {'name': 'x', 'pair': ('label', L(1)), 'grid': [[1, 2, L(2)], ['a', (3, L(3))]]}
+    yield [Color.RED, L(1), '', L(2)]
 
 
 def check_discovery():
@@ -368,6 +382,7 @@ def distinct_tasks():
         out.append(Holder(v=v))
         out.append(Holder(w=v))
     out += [Leaf(v) for v in vals[:14]] + [Leaf2(v) for v in vals[:6]] + [LeafX(v) for v in vals[:6]]
+    out += [Régression_Δ(v) for v in vals[:3]]
     out += [Defaulted()] + [Defaulted(scale=v) for v in (1, True, 1.5, None, '1.0')] + [Defaulted(flag=v) for v in (False, 0.0, -0.0, None, '0')] \
         + [Defaulted(name=v) for v in (None, (), 'x')] + [Defaulted(items=v) for v in ([1], {}, None, '')]
     return out
@@ -419,6 +434,28 @@ def check_c07(tier):
                 st.exists(t.cache_key)
             except Exception as ex:     # noqa
                 return f'LocalStorage rejects the key of {t!r}: {ex}', n
+    # reconstruction from cache metadata: every task stored under key k comes back (Lab.cached_tasks) as a task whose key is k
+    logging.getLogger('labtech').setLevel(logging.CRITICAL)
+    # (second list: dict parameters whose keys were NOT inserted in sorted order, at several depths and inside a nested task --
+    #  in `ts` each of them is == to a sorted-order twin and would be de-duplicated by run_tasks)
+    unsorted = [Holder(v={'b': 2, 'a': 1}), Leaf({'z': 1, 'a': {'y': 1, 'b': (2, {'k': 0, 'c': 1})}}), Holder(w=Leaf({'q': 1, 'c': 2})), Holder(v=({'n': 1, 'm': 2},))]
+    for group in (ts, unsorted):
+        with tempfile.TemporaryDirectory() as d:
+            ts_ = group
+            lab = labtech.Lab(storage=d, runner_backend='serial', continue_on_failure=True)
+            lab.run_tasks(ts_, disable_progress=True, disable_top=True)
+            stored = sorted(p_ for p_ in os.listdir(d) if os.path.isdir(os.path.join(d, p_)))
+            back = lab.cached_tasks([Leaf, Leaf2, LeafX, Holder, Defaulted, Régression_Δ])
+            back_keys = sorted({t.cache_key for t in back})
+            missing = [k for k in stored if k not in back_keys]
+            if missing:
+                # which stored task is it?
+                culprit = next((t for t in ts_ if t.cache_key == missing[0]), None)
+                return (f'reconstruction from cache metadata changes the key: the entry stored under {missing[0]} ({culprit!r}) comes back from cached_tasks() '
+                        f'as a task with another cache_key (keys that came back: {len(back_keys)} of {len(stored)} stored)'), n
+            for t in back:
+                if not lab.is_cached(t):
+                    return f'a task reconstructed from cache metadata is not cached under its own key: {t!r} (key {t.cache_key})', n
     # the key a worker process stores under is the key the caller looks up, also when the task types live in the __main__
     # script and the first run uses the spawn backend (the worker re-imports the script under another module name)
     import replay.c06 as C6
